@@ -2,7 +2,7 @@
 # every registered quick check on the unchanged tree; prints one line per check and fails if any is not clean
 cd "$(dirname "$0")/../.."
 rc=0
-for i in 01 02 03 05 06 07 08 09 10 11 12 13 14 15 16 17 18 19 20; do
+for i in 01 02 03 04 05 06 07 08 09 10 11 12 13 14 15 16 17 18 19 20; do
   out=$(./check C$i --tier quick 2>&1) || rc=1
   echo "$out" | grep -E "VIOLATION|tier=" 
 done
